@@ -26,13 +26,16 @@ class PartHandler(PartFlowController):
 
     def __init__(self, name = None, upstream = None, cycle_time = 0, value = 0):
         self._waiting_for_part_since = None
-        super().__init__(name, upstream, value)
         self.cycle_time = cycle_time
         self._next_cycle_time_offset = 0
         self._part = None
         self._output = None
         self._received_part_callbacks = []
         self._waiting_for_downstream_space = False
+        # Registers with the System which will initialize the object
+        # immediately if the simulation is already in progress; must
+        # not be followed by anything that resets initialized fields.
+        super().__init__(name, upstream, value)
 
     def initialize(self, env):
         super().initialize(env)
